@@ -149,10 +149,57 @@ fn fold(h: u64, rip: u64) -> u64 {
 
 /// Fork a child that validates `wire` between two SIGSTOPs; single-step it in between.
 /// `record` receives every RIP. Returns the child's exit code (0 = refused as expected).
+/// Tracer mode "builder": the refusal is traced on an authenticator assembled by hand through the (unstable) builder
+/// from the parsed request's fields, calling validate_signature directly.
+static BUILDER_MODE: std::sync::atomic::AtomicBool = std::sync::atomic::AtomicBool::new(false);
+
 unsafe fn trace_one(wire: &WireReq, cfg: &Cfg, prov: &ProvSpec, record: &mut dyn FnMut(u64)) -> i32 {
     let pid = libc::fork();
     if pid < 0 {
         return -1;
+    }
+    if pid == 0 && BUILDER_MODE.load(std::sync::atomic::Ordering::Relaxed) {
+        use scratchstack_aws_signature::auth::SigV4Authenticator;
+        use scratchstack_aws_signature::canonical::CanonicalRequest;
+        libc::ptrace(libc::PTRACE_TRACEME, 0, 0, 0);
+        let req = match wire.to_http() {
+            Ok(r) => r,
+            Err(_) => libc::_exit(3),
+        };
+        let (parts, body) = req.into_parts();
+        let cr = match CanonicalRequest::from_request_parts(parts, body, cfg.options()) {
+            Ok((cr, _, _)) => cr,
+            Err(_) => libc::_exit(4),
+        };
+        let reqs = sut::build_vec_reqs(&cfg.reqs, sut::ReqBuild::VecNew);
+        let parsed = match cr.get_authenticator(&reqs) {
+            Ok(a) => a,
+            Err(_) => libc::_exit(5),
+        };
+        let mut b = SigV4Authenticator::builder();
+        b.canonical_request_sha256(parsed.canonical_request_sha256());
+        b.credential(parsed.credential().to_string());
+        b.signature(parsed.signature().to_string());
+        b.request_timestamp(parsed.request_timestamp());
+        if let Some(t) = parsed.session_token() {
+            b.session_token(t.to_string());
+        }
+        let auth = match b.build() {
+            Ok(a) => a,
+            Err(_) => libc::_exit(6),
+        };
+        let mut provider = prov.to_provider();
+        let now = sut::to_chrono(cfg.now());
+        let mm = chrono::Duration::minutes(15);
+        libc::raise(libc::SIGSTOP);
+        let (r, _) = crate::env::run_bounded(auth.validate_signature(&cfg.region, &cfg.service, now, mm, &mut provider), 16);
+        libc::raise(libc::SIGSTOP);
+        let code = match r {
+            Some(Err(e)) if sut::kind_of(&e) == refmodel::Kind::SignatureDoesNotMatch => 0,
+            Some(Ok(_)) => 10,
+            _ => 11,
+        };
+        libc::_exit(code);
     }
     if pid == 0 {
         // child
@@ -219,6 +266,8 @@ pub fn tracer_main(args: &[String]) -> i32 {
     let variants: Vec<usize> = args.get(3).map(|s| s.split(',').filter_map(|x| x.parse().ok()).collect()).unwrap_or_default();
     // logger: off (default), or installed at Debug level and formatting every record it receives
     let debug_logger = args.get(4).map(|s| s.as_str()) == Some("debug");
+    let builder_mode = args.get(4).map(|s| s.as_str()) == Some("builder");
+    BUILDER_MODE.store(builder_mode, std::sync::atomic::Ordering::Relaxed);
     if debug_logger {
         crate::env::set_log_mode_level(crate::env::LOG_FORMAT, log::LevelFilter::Debug);
         crate::env::FORMAT_LOGS.with(|f| f.set(true));
@@ -313,7 +362,7 @@ pub fn tracer_main(args: &[String]) -> i32 {
     for (n, r) in results.iter().enumerate() {
         println!(
             "{}",
-            json!({"request": name, "secret": si, "logger": if debug_logger { "debug" } else { "off" }, "variant": r.variant, "role": if n == 0 { "reference" } else if n == 1 { "reference-repeat" } else if n == 2 { "reference-upper" } else { "variant" },
+            json!({"request": name, "secret": si, "logger": if debug_logger { "debug" } else { "off" }, "entry": if builder_mode { "validate_signature on a builder-made authenticator" } else { "sigv4_validate_request" }, "variant": r.variant, "role": if n == 0 { "reference" } else if n == 1 { "reference-repeat" } else if n == 2 { "reference-upper" } else { "variant" },
                    "steps": r.steps, "hash": format!("{:016x}", r.hash), "first_divergence": r.first_divergence,
                    "rip_reference_offset": format!("{:#x}", r.rip_ref.wrapping_sub(base)), "rip_observed_offset": format!("{:#x}", r.rip_got.wrapping_sub(base)),
                    "refused": r.refused, "child_code": codes[n], "signature": variant(&sig, r.variant)})
@@ -362,12 +411,12 @@ pub fn run(ctx: &Ctx) -> Report {
     let workers = 16usize;
     // leave worker slots for the Debug-logger jobs (2) and the signature-twice shapes (3) so that everything runs
     // in one wave
-    let per_group = ((workers - 5) / groups.len()).max(1);
-    let mut jobs: Vec<(usize, usize, Vec<usize>, bool)> = Vec::new();
+    let per_group = ((workers - 6) / groups.len()).max(1);
+    let mut jobs: Vec<(usize, usize, Vec<usize>, u8)> = Vec::new(); // last: 0 plain, 1 Debug logger, 2 builder-made authenticator
     for (si, ri) in &groups {
         let chunk = (variants.len() + per_group - 1) / per_group;
         for c in variants.chunks(chunk) {
-            jobs.push((*si, *ri, c.to_vec(), false));
+            jobs.push((*si, *ri, c.to_vec(), 0));
         }
     }
     // the same refusals with a logger installed at Debug level (an embedding application's usual setting):
@@ -376,7 +425,7 @@ pub fn run(ctx: &Ctx) -> Report {
         let dbg_variants: Vec<usize> = if thorough { (0..64).collect() } else { (0..64).step_by(4).collect() };
         let (si, ri) = groups[0];
         for c in dbg_variants.chunks(if thorough { 4 } else { 8 }) {
-            jobs.push((si, ri, c.to_vec(), true));
+            jobs.push((si, ri, c.to_vec(), 1));
         }
     }
     // the presented signature occurring twice: every 8th position in quick, all in thorough (both secrets)
@@ -385,8 +434,18 @@ pub fn run(ctx: &Ctx) -> Report {
         for ri in twice_shapes {
             for si in if thorough { vec![0usize, 1] } else { vec![0usize] } {
                 for c in vs.chunks(if thorough { 16 } else { 9 }) {
-                    jobs.push((si, ri, c.to_vec(), false));
+                    jobs.push((si, ri, c.to_vec(), 0));
                 }
+            }
+        }
+    }
+    // the refusal on an authenticator assembled through the builder (validate_signature called directly): every 8th
+    // position in quick, all in thorough
+    {
+        let vs: Vec<usize> = if thorough { (0..128).collect() } else { (0..64).step_by(8).chain([63]).collect() };
+        for (si, ri) in if thorough { vec![(0usize, 0usize), (1, 2)] } else { vec![(0usize, 0usize)] } {
+            for c in vs.chunks(if thorough { 16 } else { 9 }) {
+                jobs.push((si, ri, c.to_vec(), 2));
             }
         }
     }
@@ -402,7 +461,7 @@ pub fn run(ctx: &Ctx) -> Report {
                         .arg(si.to_string())
                         .arg(ri.to_string())
                         .arg(list)
-                        .arg(if *dbg { "debug" } else { "off" })
+                        .arg(["off", "debug", "builder"][*dbg as usize])
                         .output();
                     match out {
                         Ok(o) if o.status.success() => {
@@ -474,7 +533,7 @@ pub fn run(ctx: &Ctx) -> Report {
     Report {
         stats: st,
         rule: format!(
-            "for each of {} (request, key) groups ({}): wrong signatures of the correct length — only position p wrong for every p in 0..63{} — substituted within the character's class (digit->digit, letter->letter), in lower case and (every 8th position in quick, all in thorough) with the letters in upper case, each family compared with its own all-wrong reference; the lower-case family is traced again with a logger installed at Debug level that formats every record; three further request shapes carry the presented signature twice (a repeated X-Amz-Signature parameter, a repeated Signature= field, a stray X-Amz-Signature query parameter next to header authentication; every 8th position in quick, all positions and both secrets in thorough); each is validated in a forked, warmed-up child of a single-threaded tracer (ship-profile build, logger off unless stated, byte-wise early-exit memcmp/bcmp linked in) and single-stepped under ptrace from just before to just after sigv4_validate_request; every trace must have the same length and the same RIP-sequence hash as the group's reference trace (all 64 characters wrong), which is itself traced twice to prove the apparatus deterministic. states = distinct (group, trace hash); transitions = machine instructions stepped",
+            "for each of {} (request, key) groups ({}): wrong signatures of the correct length — only position p wrong for every p in 0..63{} — substituted within the character's class (digit->digit, letter->letter), in lower case and (every 8th position in quick, all in thorough) with the letters in upper case, each family compared with its own all-wrong reference; the lower-case family is traced again with a logger installed at Debug level that formats every record; three further request shapes carry the presented signature twice (a repeated X-Amz-Signature parameter, a repeated Signature= field, a stray X-Amz-Signature query parameter next to header authentication; every 8th position in quick, all positions and both secrets in thorough); the refusal is also traced on an authenticator assembled by hand through the unstable builder with validate_signature called directly; each is validated in a forked, warmed-up child of a single-threaded tracer (ship-profile build, logger off unless stated, byte-wise early-exit memcmp/bcmp linked in) and single-stepped under ptrace from just before to just after sigv4_validate_request; every trace must have the same length and the same RIP-sequence hash as the group's reference trace (all 64 characters wrong), which is itself traced twice to prove the apparatus deterministic. states = distinct (group, trace hash); transitions = machine instructions stepped",
             groups.len(),
             if thorough { "GET vanilla, POST body, query carrier x 2 secrets" } else { "GET vanilla, first secret" },
             if thorough { ", and positions p..63 all wrong for every p" } else { "" }
